@@ -118,7 +118,19 @@ def part_parser(ctx, i):
     pop = gen.random_population(rng, 4)
     texts = []
     toks = []
-    for _ in range(rng.randint(2, 8)):
+    long_run = rng.random() < 0.08
+    if long_run:
+        ctx.count('long_sequences')
+    for _ in range(rng.randint(40, 120) if long_run else rng.randint(2, 8)):
+        if long_run and texts and rng.random() < 0.85:
+            # mostly short texts, many of them leaving a block open
+            texts.append(rng.choice([
+                probe(rng, toks), 'repeat 2 begin print 1',
+                'define zz_r begin print 1', 'if 1 begin print 2 end else begin',
+                'set "Candle" begin stage row 1', 'repeat 2 begin print 1 end',
+                'if { 1 } begin print 1 end', 'print { ( 1 + 2 }',
+                'repeat begin if 1 begin repeat 2 begin print', 'hue 5 set all']))
+            continue
         if texts and rng.random() < 0.25:
             texts.append(probe(rng, toks))
             ctx.count('probe_texts')
@@ -201,6 +213,28 @@ def part_parser(ctx, i):
                               '{} | {!r}'.format(evs[:2], text[:200]),
                               {'part': 'job-reload', 'texts': texts})
                 break
+        elif k and rng.random() < 0.5:
+            # an accepted text runs on the used job exactly as on a fresh one
+            # (bounded: generated programs are finite, probes are short)
+            reset_devices(pop)
+            ru = run_script(text, [1, 0, 1], job=used_job, budget=20000)
+            reset_devices(pop)
+            rf = run_script(text, [1, 0, 1], budget=20000)
+            if not (ru.budget_exhausted or rf.budget_exhausted):
+                a = refmodel.stream_of(ru.log)
+                b = refmodel.stream_of(rf.log)
+                if repr(a) != repr(b) or bool(ru.stops) != bool(rf.stops):
+                    d = next((j for j, (x, y) in enumerate(zip(a, b))
+                              if repr(x) != repr(y)), min(len(a), len(b)))
+                    ctx.violation(
+                        'job-reload:runs-differently',
+                        'load_string #{} on a used job, then execute: event {} '
+                        'is {} where a fresh job has {} | this: {!r}'.format(
+                            k, d, a[d] if d < len(a) else None,
+                            b[d] if d < len(b) else None, text[:200]),
+                        {'part': 'job-reload', 'texts': texts})
+                    break
+                ctx.count('reloaded_jobs_executed')
         ctx.count('job_reloads')
 
 
@@ -228,6 +262,11 @@ OVERLAPS = [
     'look "{name}" look lamp on lamp',
     'define n {v} repeat 2 begin define w with n begin print n end w 1 end '
     'print n',
+    # one pattern macro in several `time at` statements, alone and with `or`
+    'define noon 12:00 time at noon on "{name}" time at noon or 18:30 '
+    'off "{name}" time at 18:30 or noon on all',
+    'define tea 16:*0 repeat 2 begin time at tea or 9:15 wait time at tea '
+    'wait end',
 ]
 
 
